@@ -16,7 +16,8 @@ RULE = ("models {ARZ, AVZ, ZHS} x deviation-bounded lattice (d=1 quick, d=2 thor
         "(+-(theta_c + ladder), 0, pi/2, pi) x distance x vertex depth x N x dt x grid offset x shower time; at every point the relations "
         "1/R, +-angle, joint shift, whole-sample shift, finiteness, zero energy; plus angle ladders (cone maximum, monotone fall-off) and "
         "EM on-cone energy proportionality; distinct_nontrivial = distinct configurations whose pulse is not identically zero")
-ASSUMPTIONS = ["the monotone-amplitude claim is checked on the declared angle ladder with dt <= 2^-34 s and E >= 1e9 GeV (DESIGN C07 S)",
+ASSUMPTIONS = ["AVZ with odd N extrapolates its last sample; that sample is excluded from the whole-sample-shift comparison",
+               "the monotone-amplitude claim is checked on the declared angle ladder with dt <= 2^-34 s and E >= 1e9 GeV (DESIGN C07 S)",
                "whole-sample shifts are compared on the overlapping samples"]
 CHUNK = 2
 
@@ -158,7 +159,9 @@ def _point(case):
     if v["frac"] == (0.0, 0.0) and np.any(v0 != 0):
         fail("zero-energy", "zero shower energy gives a non-zero field (max %g)" % np.max(np.abs(v0)))
     peak = float(np.max(np.abs(v0)))
-    tol = 1e-10 * peak + 1e-300
+    # floor: 1e-12 of the on-cone amplitude scale (~1e-8 E/R), so that an essentially vanishing pulse (e.g. theta = pi) is not
+    # compared at the level of its own rounding noise
+    tol = 1e-10 * peak + 1e-20 * v["E"] / v["R"] + 1e-300
 
     def cmp(check, res, expect, what):
         if res[0] == "exc":
@@ -187,6 +190,9 @@ def _point(case):
             fail("sample-shift", "t0 + %d samples raised %s" % (k, r[1]))
         else:
             got, want = r[1][k:], v0[:-k]
+            if model == "AVZ" and v["N"] % 2:
+                # odd lengths: the model computes N-1 samples and extrapolates the last one linearly (documented)
+                got, want = got[:-1], want[:-1]
             # the pulse content that leaves through the end of the window is dropped; compare the overlap
             if not np.all(np.abs(got - want) <= max(tol, 1e-10 * float(np.max(np.abs(r[1]))))):
                 bad = int(np.argmax(np.abs(got - want)))
